@@ -439,6 +439,7 @@ impl Property for C09 {
                 }
             }
             out.failures.clear();
+            out.label("survey_mode");
         }
         out
     }
@@ -449,6 +450,9 @@ impl Property for C09 {
             return v;
         }
         let get = |k: &str| labels.get(k).copied().unwrap_or(0);
+        if get("survey_mode") > 0 {
+            v.push("C09_SURVEY is set: failures were diverted to that file, this run decides nothing".into());
+        }
         let gen = get("gen");
         if gen > 0 && get("gen:parse-ok") * 100 < gen * 70 {
             v.push(format!("only {} of {} unmutated grammar products parse", get("gen:parse-ok"), gen));
